@@ -9,19 +9,27 @@ import (
 // ---- C18: server start/stop is orderly under any timing --------------------------------------
 
 type vhListener struct {
-	queue     chan Transport
-	done      chan struct{}
-	closes    int
-	listens   int
-	closeErr  bool
-	accepting int
+	queue      chan Transport
+	done       chan struct{}
+	closes     int
+	listens    int
+	closeErr   bool
+	accepting  int
+	listenGate chan struct{}
 }
 
 func newVhListener() *vhListener {
 	return &vhListener{queue: make(chan Transport, 2), done: make(chan struct{})}
 }
 
-func (l *vhListener) Listen(ctx context.Context, addr net.Addr) error { l.listens++; return nil }
+func (l *vhListener) Listen(ctx context.Context, addr net.Addr) error {
+	l.listens++
+	if l.listenGate != nil {
+		// a listener that is slow to bind
+		<-l.listenGate
+	}
+	return nil
+}
 func (l *vhListener) Accept(ctx context.Context) (Transport, error) {
 	l.accepting++
 	select {
@@ -67,6 +75,10 @@ func HarnessC18StartStop() {
 	if vParam("closeerr", 0) == 1 {
 		ls[0].closeErr = true
 	}
+	slow := vParam("slowlisten", 0) == 1 && nl > 1
+	if slow {
+		ls[nl-1].listenGate = make(chan struct{})
+	}
 	srv := NewServer(cfg, mux, bound...)
 	// 0-1 client connecting
 	var client *vhCoopClient
@@ -89,11 +101,17 @@ func HarnessC18StartStop() {
 	default:
 		vQuiesce()
 	}
-	if srv.shutdown == nil {
+	if slow {
+		// Close lands while the serve call is still starting its listeners (the last one is slow to bind)
+		vQuiesce()
+	} else if srv.shutdown == nil {
 		// the serve call has not started yet: Close has nothing to stop (documented error); let it start first
 		vQuiesce()
 	}
 	closeErr := srv.Close()
+	if slow {
+		close(ls[nl-1].listenGate)
+	}
 	vQuiesce()
 	vReach("c18:closed")
 	vAssert(served, "c18:serve-call-returns-after-close")
